@@ -103,9 +103,11 @@ Example C05_b_no_loss_nonvacuous :
   TW [] (checkT (init_db 1000000 1)) (init_db 1000000 1) /\ Forall sweep_ok (run_states (init_db 1000000 1) c05_demo).
 Proof.
   split; [apply TW_init|].
-  cbn [c05_demo run_states]. repeat (apply Forall_cons; [|]); try apply Forall_nil; unfold sweep_ok; cbn [snd]; try exact I.
+  match goal with |- Forall _ ?x => let y := eval vm_compute in x in replace x with y by (vm_compute; reflexivity) end.
+  repeat (apply Forall_cons; [|]); try apply Forall_nil; unfold sweep_ok; cbn [snd fst]; try exact I.
   all: split; [vm_compute; reflexivity|].
-  all: intros (site & J); vm_compute in J; repeat (destruct J as [J|J]; [discriminate J|]); destruct J.
+  all: match goal with |- ~ has_panic ?x => let y := eval vm_compute in x in replace x with y by (vm_compute; reflexivity) end.
+  all: repeat (apply no_panic_cons; [intros site; discriminate|]); apply no_panic_nil.
 Qed.
 
 (* (d) exclusion with grant / cancel.  doTimeOut on a tombstoned record (granted, cancelled, timed out) answers nothing *)
